@@ -1,6 +1,7 @@
 (* C19 model runner.  Input lines:
      ID<TAB>route=R;c=C0,C1,..;pre=NAME:NUM,..;ops=OP,..;impl=IMPLOBS
-   ops: M<i>:<name> (MakeSymbol), G<i>:<prefix> (GenSymbol), D<i> (Duplicate), C<i> (Clone)
+   ops: M<i>:<name> (MakeSymbol), h<i>:<name> (MakeSymbol done inside the interpreter while reading a text),
+        G<i>:<prefix> (GenSymbol), D<i> (Duplicate), C<i> (Clone)
    names: characters outside [A-Za-z0-9_] are written ~XX (hex of the byte)
    observation (IMPLOBS and the MODEL column):
      OUT,OUT,..|next=..|size=+N|inv=ok|eq=BITS|hash=V,V,..[|ne=BITS|leq=BITS|aeq=BITS]
@@ -38,7 +39,7 @@ let parse_op (s : string) : op =
   let body = String.sub s 1 (String.length s - 1) in
   let (i, rest) = idx_and_rest body in
   match s.[0] with
-  | 'M' -> MkSym (nat_of_int i, decode_name rest)
+  | 'M' | 'h' -> MkSym (nat_of_int i, decode_name rest)
   | 'G' -> GenSym (nat_of_int i, decode_name rest)
   | 'D' -> Dup (nat_of_int i)
   | 'C' -> Clone (nat_of_int i)
@@ -51,6 +52,7 @@ let show_out = function
   | OFuel -> "FUEL"
 
 let parse_out (s : string) : out =
+  let s = if String.length s > 0 && s.[0] = '^' then String.sub s 1 (String.length s - 1) else s in
   if s = "-" then ONone else
   match String.rindex_opt s '/' with
   | Some k -> OSym (decode_name (String.sub s 0 k), z_of_string (String.sub s (k + 1) (String.length s - k - 1)))
@@ -105,13 +107,18 @@ let () =
         match String.rindex_opt e ':' with
         | Some k -> (decode_name (String.sub e 0 k), z_of_string (String.sub e (k + 1) (String.length e - k - 1)))
         | None -> failwith ("bad pre " ^ e)) (split_on ',' (field kvs "pre")) in
-      let ops = List.map parse_op (split_on ',' (field kvs "ops")) in
+      let opstrs = split_on ',' (field kvs "ops") in
+      let ops = List.map parse_op opstrs in
+      (* h<i>:<name> = an interning done inside the interpreter (reading a text): its answer is what the
+         table says afterwards, it is printed with a leading ^ and is not part of the equality matrix *)
+      let hidden = List.map (fun o -> o.[0] = 'h') opstrs in
       let st0 = { symtable = pre; revsymtable = List.map (fun (n, k) -> (k, n)) pre; nexts = counters } in
       let ext = (field kvs "route" <> "api") in
       let (st1, outs) = run st0 ops in
-      let msyms = select_syms (syms_of outs) in
+      let visible l = List.concat (List.map2 (fun h o -> if h then [] else [o]) hidden l) in
+      let msyms = select_syms (syms_of (visible outs)) in
       let model =
-        String.concat "," (List.map show_out outs)
+        String.concat "," (List.map2 (fun h o -> (if h then "^" else "") ^ show_out o) hidden outs)
         ^ "|next=" ^ String.concat "," (List.map string_of_z st1.nexts)
         ^ "|size=+" ^ string_of_int (List.length st1.symtable - List.length pre)
         ^ "|inv=" ^ (if inv_check st1 then "ok" else "BROKEN")
@@ -128,16 +135,21 @@ let () =
       let spec =
         if impl = "" then "-" else begin
           let parts = String.split_on_char '|' impl in
-          let iouts = List.map parse_out (split_on ',' (List.hd parts)) in
+          let istrs = split_on ',' (List.hd parts) in
+          let iouts = List.map parse_out istrs in
           let seg k = (try
               let p = List.find (fun p -> String.length p > String.length k && String.sub p 0 (String.length k + 1) = k ^ "=") parts in
               String.sub p (String.length k + 1) (String.length p - String.length k - 1)
             with Not_found -> "") in
           if List.length iouts <> List.length ops then "bad:answers-missing" else
-          match spec_check pre (List.combine ops iouts) O with
-          | Some k -> "bad:answer@" ^ string_of_int (int_of_nat k)
+          (* an internal interning whose name is not in the table afterwards (^GONE) was not observed:
+             the specification judges the observed answers only (the model comparison still reports it) *)
+          let judged = List.filter (fun (_, s, _) -> s <> "^GONE")
+              (List.mapi (fun i (s, p) -> (i, s, p)) (List.combine istrs (List.combine ops iouts))) in
+          match spec_check pre (List.map (fun (_, _, p) -> p) judged) O with
+          | Some k -> let (i, _, _) = List.nth judged (int_of_nat k) in "bad:answer@" ^ string_of_int i
           | None ->
-            let isyms = select_syms (syms_of iouts) in
+            let isyms = select_syms (syms_of (visible iouts)) in
             let want_eq = eq_bits (fun (a, _) (b, _) -> name_eqb a b) isyms in
             let want_hash = hash_obs (fun (a, _) (b, _) -> name_eqb a b) isyms in
             let want_ne = eq_bits (fun (a, _) (b, _) -> not (name_eqb a b)) isyms in
